@@ -88,7 +88,9 @@ harness(void)
 
 	if (!is_pathlike(u->u_scheme)) {
 		const char *auth = raw + sl + 3;
-		size_t      al   = strcspn(auth, "/?#");
+		size_t      al   = 0; /* (strcspn has no CBMC model) */
+		while (auth[al] != 0 && auth[al] != '/' && auth[al] != '?' && auth[al] != '#')
+			al++;
 		/* authority: one '@' at most */
 		int ats = 0;
 		for (size_t i = 0; i < al; i++)
